@@ -36,7 +36,7 @@ def mutants(n=300, seed=2):
     rng = random.Random(seed)
     import mutators as M; ms = [M.mutate(rng) for _ in range(n)]
     scs = [m[0] for m in ms]
-    docs = [S.render(s, random.Random(i), spelling=("id" if m[1] in ("identical_operands",) else "mixed"), shuffle=(i % 2 == 1)) for i, (s, m) in enumerate(zip(scs, ms))]
+    docs = [S.render(s, random.Random(i), spelling=("id" if m[1] in M.FORCE_ID_SPELLING else "mixed"), shuffle=(i % 2 == 1)) for i, (s, m) in enumerate(zip(scs, ms))]
     pool = impl.Pool(ctx); res = pool.validate_many(docs); pool.close()
     acc = [r["outcome"] == "accept" for r in res]
     import collections
